@@ -5,7 +5,7 @@
    wcfg  = (pipelines, connectors)
            pipeline  = ((signal, name), (receivers, (processors, exporters)))   ids are nat
            connector = (id, (factory is an xconnector.Factory, requested (exporter signal, receiver signal) pairs))
-   wobs  = (validate_ok, (class, (detail, (created, (started, (deliveries, (deliveries_ro, routers)))))))
+   wobs  = (validate_ok, (class, (detail, (created, (started, (deliveries, (deliveries_ro, (routers, (refusing, (deliveries_f, errors)))))))))
            class      0 built | 1 "connector ... not used in any supported ..." | 2 "cycle detected" | 3 panic
            detail     class 1: [(side 0 exporter / 1 receiver, (signal, (0, connector id)))]
                       class 2: the reported cycle (processor / connector nodes)
@@ -15,6 +15,8 @@
                       of every datum that arrived anywhere after one injection    (multiset)
            deliveries_ro  the same after injecting a payload marked READ-ONLY (shared)
            routers    per connector instance: the pipeline ids its router offers       (multiset)
+           refusing   component nodes that were told to refuse (return an error, forward nothing) in a third pass
+           deliveries_f / errors   per receiver: what still arrived in that pass / did the receiver get an error back
    wnode = (kind, (a, (b, id)))  0 Recv a=signal | 1 Proc (a,b)=pipeline | 2 Exp a=signal
                                  3 Conn a=exporter signal b=receiver signal | 4 Cap | 5 Fan *)
 From Verif Require Import Common.Base C09.Model.
@@ -24,7 +26,7 @@ Definition wpipe := ((nat * nat) * (list nat * (list nat * list nat)))%type.
 Definition wcfg := (list wpipe * list (nat * (bool * list (nat * nat))))%type.
 Definition wdeliv := (wnode * list (wnode * list wnode))%type.
 Definition wrouter := (wnode * list (nat * nat))%type.
-Definition wobs := (bool * (nat * (list wnode * (list wnode * (list wnode * (list wdeliv * (list wdeliv * list wrouter)))))))%type.
+Definition wobs := (bool * (nat * (list wnode * (list wnode * (list wnode * (list wdeliv * (list wdeliv * (list wrouter * (list wnode * (list wdeliv * list (wnode * bool)))))))))))%type.
 
 Definition node_of_w (w : wnode) : node :=
   let '(k, (a, (b, i))) := w in
@@ -72,7 +74,7 @@ Definition model_routers (g : graph) : list (node * list pid) :=
   map (fun n => (n, router_pids g n)) (filter is_connector (g_nodes g)).
 
 Definition check_case (cs : wcfg * wobs) : bool :=
-  let '(wc, (vok, (cls, (detail, (wcreated, (wstarted, (wdel, (wdelro, wrt)))))))) := cs in
+  let '(wc, (vok, (cls, (detail, (wcreated, (wstarted, (wdel, (wdelro, (wrt, (wF, (wdelf, werr))))))))))) := cs in
   let c := cfg_of_w wc in
   let r := build c in
   let crt := map node_of_w wcreated in
@@ -80,6 +82,8 @@ Definition check_case (cs : wcfg * wobs) : bool :=
   let conv := map (fun d : wdeliv => (node_of_w (fst d), map (fun x => (node_of_w (fst x), map node_of_w (snd x))) (snd d))) in
   let del := conv wdel in
   let delro := conv wdelro in
+  let delf := conv wdelf in
+  let F := map node_of_w wF in
   Bool.eqb (validate c) vok && Nat.eqb (class_of r) cls &&
   match r with
   | Ok g =>
@@ -87,10 +91,15 @@ Definition check_case (cs : wcfg * wobs) : bool :=
       perm_eqb node_eqb (created g) std &&
       perm_eqb (fun a b => node_eqb (fst a) (fst b) && perm_eqb deliv_eqb (snd a) (snd b)) (model_deliveries g) del &&
       perm_eqb (fun a b => node_eqb (fst a) (fst b) && perm_eqb deliv_eqb (snd a) (snd b)) (model_deliveries g) delro &&
+      perm_eqb (fun a b => node_eqb (fst a) (fst b) && perm_eqb deliv_eqb (snd a) (snd b))
+               (map (fun r => (r, deliver_f g F r)) (filter is_recv (g_nodes g))) delf &&
+      perm_eqb (fun a b => node_eqb (fst a) (fst b) && Bool.eqb (snd a) (snd b))
+               (map (fun r => (r, consume_error g F r)) (filter is_recv (g_nodes g)))
+               (map (fun e => (node_of_w (fst e), snd e)) werr) &&
       perm_eqb (fun a b => node_eqb (fst a) (fst b) && perm_eqb pid_eqb (snd a) (snd b)) (model_routers g)
                (map (fun r => (node_of_w (fst r), snd r)) wrt)
   | Err e =>
-      is_nil crt && is_nil std && is_nil del && is_nil delro && is_nil wrt &&
+      is_nil crt && is_nil std && is_nil del && is_nil delro && is_nil wrt && is_nil wdelf && is_nil werr &&
       match e with
       | EUnsupported =>
           match detail with
